@@ -12,7 +12,7 @@ from vf import build, run, report, zoo, corrupt, fsckpair
 
 UNIVERSE_A = 40000
 UNIVERSE_B = 60000        # same universe as C01 (tag C01-v1)
-BUDGET = {"quick": (2000, 1000), "thorough": (UNIVERSE_A, 20000)}
+BUDGET = {"quick": (2000, 1000), "thorough": (UNIVERSE_A, UNIVERSE_B)}    # thorough = both universes, complete
 
 _UA = _UB = None
 
@@ -104,7 +104,7 @@ def main(tier, seed, replay=None, scale=1.0):
             nb = min(UNIVERSE_B, max(20, int(nb * scale)))
             rng = run.rng_for(seed, "C02-ids")
             ida = list(range(UNIVERSE_A)) if na >= UNIVERSE_A else sorted(rng.sample(range(UNIVERSE_A), na))
-            idb = sorted(rng.sample(range(UNIVERSE_B), nb))
+            idb = list(range(UNIVERSE_B)) if nb >= UNIVERSE_B else sorted(rng.sample(range(UNIVERSE_B), nb))
             todo = [("a", i) for i in ida] + [("b", i) for i in idb]
         items = [(w.dir, names, b.tool("e2fsck"), env, s, cid) for s, cid in todo]
         results = run.pmap(_one, items, chunksize=8)
